@@ -1,9 +1,10 @@
 (* C05 -- Text is delivered iff strictly valid UTF-8; fail-fast.  Statements only. *)
-From Coq Require Import List NArith Bool.
+From Coq Require Import List NArith ZArith Bool.
 From Coq.Strings Require Import Byte.
 From Model Require Import Bytes Utf8.
 From Model Require Import Frame Conn.
-From Proofs Require Import Utf8Facts Utf8Tie ViolationFacts.
+From Model Require Import FrameParser.
+From Proofs Require Import Utf8Facts Utf8Tie ViolationFacts DeliveryFacts StreamViolation StreamViolation2.
 From Gen Require Import GenUtf8.
 Import ListNotations.
 Open Scope N_scope.
@@ -51,6 +52,40 @@ Print Assumptions C05_text_delivered_iff_wellformed.
 Theorem C05_close_reason_must_be_wellformed : forall c a b reason, ~ utf8_wf reason ->
   snd (build_message c [mk_close (a :: b :: reason)]) = inr MCritical.
 Proof. exact close_bad_reason_is_error. Qed.
+
+(* Fail-fast for the whole stream: a conforming frame list (any fragmentation, control frames anywhere -- also between the
+   fragments of the text message concerned --, any length forms), then the header of a text frame (a new TEXT frame, or a
+   continuation of the open text message) and payload bytes q -- the frame need NOT be complete -- such that no continuation
+   of the message bytes received so far is well-formed UTF-8: the feed fails at once, exactly one critical ProtocolError,
+   nothing of the message is delivered -- whatever follows *)
+Theorem C05_failfast_after_conforming_prefix : forall cf app, benign app -> zpos (c_ping_timeout cf) = None ->
+  forall fs lfs c open ms open' h lf len q rest,
+  idle c open -> data_head open -> Forall plain fs -> forms_ok fs lfs ->
+  ref_messages open fs = Some (ms, open') ->
+  h_mask h = false -> form_ok lf len = true -> validate_err false h len = false ->
+  ((h_op h = OP_TEXT /\ open' = []) \/ (h_op h = OP_CONT /\ is_text_msg open' = true)) ->
+  q <> [] -> blen q <= len -> ~ viable (payload_of open' ++ q) ->
+  let r := feedf cf app c (encode_all fs lfs ++ hdr_bytes h lf len ++ q ++ rest) in
+  snd r <> SOk /\
+  msg_events (k_tr (fst r)) = rev (map ev_of ms) ++ msg_events (k_tr c) /\
+  perrors (k_tr (fst r)) = true :: perrors (k_tr c).
+Proof. exact text_failfast_after_prefix. Qed.
+Print Assumptions C05_failfast_after_conforming_prefix.
+
+(* ... and a complete unfragmented TEXT frame whose payload is not well-formed -- including one that ends inside a multi-byte
+   character, which the streaming check cannot refuse -- is never delivered: one critical ProtocolError *)
+Theorem C05_invalid_text_after_conforming_prefix : forall cf app, benign app -> zpos (c_ping_timeout cf) = None ->
+  forall fs lfs c ms f lf rest,
+  idle c [] -> Forall plain fs -> forms_ok fs lfs ->
+  ref_messages [] fs = Some (ms, []) ->
+  plain f -> f_op f = OP_TEXT -> f_fin f = true -> form_ok lf (blen (f_payload f)) = true ->
+  ~ utf8_wf (f_payload f) ->
+  let r := feedf cf app c (encode_all fs lfs ++ enc_frame f lf ++ rest) in
+  snd r <> SOk /\
+  msg_events (k_tr (fst r)) = rev (map ev_of ms) ++ msg_events (k_tr c) /\
+  perrors (k_tr (fst r)) = true :: perrors (k_tr c).
+Proof. exact invalid_text_after_prefix. Qed.
+Print Assumptions C05_invalid_text_after_conforming_prefix.
 
 Example C05_nonvacuous :
   utf8_wf [x68; xe2; x82; xac; xf0; x9f; x98; x80] /\ ~ viable [xed; xa0] /\ ~ utf8_wf [xc0; xaf] /\ viable [xf0; x9f].
